@@ -1,1 +1,151 @@
-"""lemmas about the semantics"""
+"""Axioms (A-SEM, assumed - checked natively against the reference evaluator on the corpus, never proved) and
+lemmas (proved, by induction where needed) about the truth-value semantics of specs/sem.py."""
+from hpl.ast.expressions import (HplExpression, HplUnaryOperator, HplBinaryOperator, HplQuantifier, HplLiteral,
+                                 HplFunctionCall, QuantifierType)
+from pyvc.contracts import lemma, spec, unfold
+from specs.sem import ev, equiv, conj, dom, bind, atom, forall_env
+from specs.tree import mentions
+from specs.typing import with_dt
+from hpl.types import DataType
+
+ANY = DataType.ANY
+
+# ------------------------------------------------------------------------------------------------ axioms
+
+
+@lemma(axiom=True, auto=('ev',))
+def atom_ignores_types(e: 'Expr', t: 'DT', rho: 'Env') -> 'Bool':
+    """A-SEM-1: the value of an expression does not depend on the type set stored at its root"""
+    return atom(with_dt(e, t), rho) == atom(e, rho)
+
+
+@lemma(axiom=True, auto=('ev',))
+def dom_ignores_types(d: 'Expr', t: 'DT', rho: 'Env') -> 'Bool':
+    """A-SEM-1 (domains): the members of a domain do not depend on the type set stored at its root"""
+    return dom(with_dt(d, t), rho) == dom(d, rho)
+
+
+@lemma(axiom=True)
+def ev_frame(e: 'Expr', v: 'Str', x: 'Val', rho: 'Env') -> 'Bool':
+    """A-SEM-2: the truth value of an expression does not depend on a variable it does not mention"""
+    return mentions(e, v) or ev(e, bind(rho, v, x)) == ev(e, rho)
+
+
+@lemma(axiom=True)
+def dom_frame(d: 'Expr', v: 'Str', x: 'Val', rho: 'Env') -> 'Bool':
+    """A-SEM-2 (domains): the members of a domain do not depend on a variable it does not mention"""
+    return mentions(d, v) or dom(d, bind(rho, v, x)) == dom(d, rho)
+
+
+@spec(inline=True)
+def is_empty_test(e: 'Expr', d: 'Expr') -> 'Bool':
+    """e is the expression `len(d) = 0` (whatever type sets are stored in it)"""
+    return isinstance(e, HplBinaryOperator) and e.operator.token == '=' \
+        and isinstance(e.operand1, HplFunctionCall) and e.operand1.function.name == 'len' \
+        and len(e.operand1.arguments) == 1 and with_dt(e.operand1.arguments[0], ANY) == with_dt(d, ANY) \
+        and isinstance(e.operand2, HplLiteral) and e.operand2.value == 0
+
+
+@lemma(axiom=True)
+def empty_test_sem(e: 'Expr', d: 'Expr', rho: 'Env') -> 'Bool':
+    """A-SEM-3: `len(d) = 0` is true exactly when the domain d has no members"""
+    return (not is_empty_test(e, d)) or (atom(e, rho) == (len(dom(d, rho)) == 0))
+
+
+# ------------------------------------------------------------------------------------------------ lemmas
+
+@lemma(auto=('ev',))
+def ev_ignores_types(e: 'Expr', t: 'DT', rho: 'Env') -> 'Bool':
+    """stored type sets at the root of an expression do not change its truth value"""
+    return ev(with_dt(e, t), rho) == ev(e, rho)
+
+
+@spec(inline=True)
+def is_neg(e: 'Expr') -> 'Bool':
+    return isinstance(e, HplUnaryOperator) and e.operator.token == 'not'
+
+
+@spec(inline=True)
+def is_conj(e: 'Expr') -> 'Bool':
+    return isinstance(e, HplBinaryOperator) and e.operator.token == 'and'
+
+
+@lemma(auto=('ev',))
+def equiv_types(e: 'Expr', t: 'DT') -> 'Bool':
+    return equiv(with_dt(e, t), e)
+
+
+def _pat1(a, b):
+    return equiv(a, b)
+
+@lemma(auto=('ev',), patterns=_pat1)
+def equiv_sym(a: 'Expr', b: 'Expr') -> 'Bool':
+    return (not equiv(a, b)) or equiv(b, a)
+
+
+def _pat2(a, b, c):
+    return (equiv(a, b), equiv(b, c))
+
+@lemma(auto=('ev',), patterns=_pat2)
+def equiv_trans(a: 'Expr', b: 'Expr', c: 'Expr') -> 'Bool':
+    return (not (equiv(a, b) and equiv(b, c))) or equiv(a, c)
+
+
+# ---- quantifier bodies: folds over the members of a domain
+
+def _pat3(s, p, q, v, rho):
+    return (equiv(p, q), all(ev(p, bind(rho, v, x)) for x in s))
+
+@lemma(induction_on='s', auto=('ev',),
+       patterns=_pat3)
+def all_cong(s: 'Seq[Val]', p: 'Expr', q: 'Expr', v: 'Str', rho: 'Env') -> 'Bool':
+    """equivalent bodies: same universal fold"""
+    return (not equiv(p, q)) \
+        or (all(ev(p, bind(rho, v, x)) for x in s) == all(ev(q, bind(rho, v, x)) for x in s))
+
+
+def _pat4(s, p, q, v, rho):
+    return (equiv(p, q), any(ev(p, bind(rho, v, x)) for x in s))
+
+@lemma(induction_on='s', auto=('ev',),
+       patterns=_pat4)
+def any_cong(s: 'Seq[Val]', p: 'Expr', q: 'Expr', v: 'Str', rho: 'Env') -> 'Bool':
+    """equivalent bodies: same existential fold"""
+    return (not equiv(p, q)) \
+        or (any(ev(p, bind(rho, v, x)) for x in s) == any(ev(q, bind(rho, v, x)) for x in s))
+
+
+def _pat5(s, c, v, rho):
+    return all(ev(c, bind(rho, v, x)) for x in s)
+
+@lemma(induction_on='s', auto=('ev',), patterns=_pat5)
+def all_and(s: 'Seq[Val]', c: 'Expr', v: 'Str', rho: 'Env') -> 'Bool':
+    """(A x: p & q)  ==  (A x: p) & (A x: q)"""
+    return (not is_conj(c)) \
+        or (all(ev(c, bind(rho, v, x)) for x in s)
+            == (all(ev(c.operand1, bind(rho, v, x)) for x in s) and all(ev(c.operand2, bind(rho, v, x)) for x in s)))
+
+
+def _all_const_hint(s, p, v, rho):
+    if len(s) > 0:
+        ev_frame(p, v, s[0], rho)
+
+
+def _pat6(s, p, v, rho):
+    return all(ev(p, bind(rho, v, x)) for x in s)
+
+@lemma(induction_on='s', auto=('ev',), hint=_all_const_hint,
+       patterns=_pat6)
+def all_const(s: 'Seq[Val]', p: 'Expr', v: 'Str', rho: 'Env') -> 'Bool':
+    """(A x: p) with x not in p  ==  (the domain is empty) | p"""
+    return mentions(p, v) or (all(ev(p, bind(rho, v, x)) for x in s) == (len(s) == 0 or ev(p, rho)))
+
+
+def _pat7(s, p, v, rho):
+    return all(ev(p, bind(rho, v, x)) for x in s)
+
+@lemma(induction_on='s', auto=('ev',), patterns=_pat7)
+def all_neg(s: 'Seq[Val]', p: 'Expr', v: 'Str', rho: 'Env') -> 'Bool':
+    """(A x: ~c)  ==  ~(E x: c)"""
+    return (not is_neg(p)) \
+        or (all(ev(p, bind(rho, v, x)) for x in s) == (not any(ev(p.operand, bind(rho, v, x)) for x in s)))
